@@ -33,3 +33,15 @@ let c15 args =
   | _ -> raise (Bad "c15 args")
 
 let () = register "c15" c15
+
+(* (c15carried ((POS (VALUE ..)) ..)) -> ((POS (DOC ..)) ..): the doc strings the front end carries on the unchanged
+   tree for doc attributes with these values (Spec/C15Spec.v c15_carried_sites: str::trim of each value) *)
+let c15carried args =
+  match args with
+  | [sites] ->
+    let sites = to_list (function L [p; ds] -> (p, to_list to_str ds) | _ -> raise (Bad "c15 site")) sites in
+    let carried = Model.c15_carried_sites uc (List.map (fun (p, ds) -> (to_c15_pos p, ds)) sites) in
+    L (List.map2 (fun (p, _) (_, ds) -> L [p; of_list str_to_atom ds]) sites carried)
+  | _ -> raise (Bad "c15carried args")
+
+let () = register "c15carried" c15carried
